@@ -8,8 +8,10 @@ import (
 	"go/types"
 	"os"
 	"os/exec"
+	"path/filepath"
 	"regexp"
 	"sort"
+	"strconv"
 	"strings"
 
 	"golang.org/x/tools/go/packages"
@@ -236,6 +238,9 @@ func c16(c *Ctx) {
 	if os.Getenv("GOOMVET_X86IDX") != "" {
 		c16IndexProbe(c.K1())
 	}
+	c16PrefixStores(c.K1(), c.R)
+	c.R.Floor("C16.R7", 5)
+	c16Interpreter(c)
 	// R6: decoding is a function of the bytes it is given: no memo, no shared scratch state on the decode path
 	{
 		p, r := c.K1(), c.R
@@ -787,6 +792,27 @@ func interpreterCases(pk *packages.Package) map[string]bool {
 }
 
 func c16Consumers(p *Prog, r *Report) {
+	// the window a scanner reads for the decoder holds a whole instruction: every raw read that feeds Decode asks for at
+	// least the architectural maximum of 15 bytes (a shorter window truncates long instructions, which then decode as
+	// one-byte pseudo instructions and the scan loses the instruction stream)
+	for _, f := range p.FuncsIn("internal/bytecode") {
+		if f.Blocks == nil {
+			continue
+		}
+		nInF := 0
+		for _, cs := range callsTo(f, qual(x86Pkg, "Decode")) {
+			for _, a := range origins(callCommon(cs).Args[0]) {
+				rd, ok := a.V.(*ssa.Call)
+				if !ok || calleeName(rd.Common()) != qual(memPkg, "RawRead") {
+					continue
+				}
+				nInF++
+				n, isC := constInt(rd.Call.Args[1])
+				r.Check(isC && n >= 15, "C16.R4", "decode window of "+shortName(f)+" #"+itoa2(nInF)+" holds a whole instruction", p.Pos(posOf(rd)), "constant length ≥ 15",
+					"the bytes read for the decoder are fewer than the longest instruction (or their number is not a constant): an 11–15 byte instruction is cut off, decodes as garbage, and the function-extent scan stops short or runs out of step")
+			}
+		}
+	}
 	if n := checkCallTargetArithmetic(p, r, "C16.R4"); n == 0 {
 		r.Und("C16.R4", "branch target arithmetic", "", "no scanner of package bytecode computes an address from a decoded displacement")
 	}
@@ -1381,4 +1407,339 @@ func checkCallTargetArithmetic(p *Prog, r *Report, rule string) int {
 		}
 	}
 	return n
+}
+
+// c16PrefixStores: C16.R1 clause — every store into the fixed-size prefix array of the instruction being decoded is at an
+// index proven below the array's length by the dominating conditions (the "too many prefixes" guards).
+func c16PrefixStores(p *Prog, r *Report) int {
+	n := 0
+	for _, f := range p.FuncsIn(x86Pkg) {
+		if f.Blocks == nil {
+			continue
+		}
+		k := NewKeyer(f)
+		nInF := 0
+		// the running read position: values that also index the input bytes
+		readPos := map[ssa.Value]bool{}
+		eachInstr(f, func(i ssa.Instruction) {
+			if ia, ok := i.(*ssa.IndexAddr); ok {
+				if sl, isSl := ia.X.Type().Underlying().(*types.Slice); isSl && isByte(sl.Elem()) {
+					readPos[resolveLocal(ia.Index)] = true
+				}
+			}
+		})
+		eachInstr(f, func(i ssa.Instruction) {
+			ia, ok := i.(*ssa.IndexAddr)
+			if !ok {
+				return
+			}
+			pt, ok := ia.X.Type().Underlying().(*types.Pointer)
+			if !ok {
+				return
+			}
+			at, ok := pt.Elem().Underlying().(*types.Array)
+			if !ok || !strings.HasSuffix(pt.Elem().String(), "Prefixes") || !readPos[resolveLocal(ia.Index)] {
+				return
+			}
+			stored := false
+			for _, ref := range *ia.Referrers() {
+				if st, ok := ref.(*ssa.Store); ok && st.Addr == ssa.Value(ia) {
+					stored = true
+				}
+			}
+			if !stored {
+				return
+			}
+			if c, isC := constInt(ia.Index); isC && c >= 0 && c < at.Len() {
+				return
+			}
+			n++
+			nInF++
+			m := NewDBM()
+			guardsToDBM(m, k, ia.Block())
+			it := k.TermOf(ia.Index)
+			ok2 := m.EntailsLE(it, Term{"", at.Len() - 1})
+			r.Check(ok2, "C16.R1", "prefix slot written in "+shortName(f)+" #"+itoa2(nInF)+" is inside the array", p.Pos(posOf(ia)), fmt.Sprintf("index ≤ %d by the dominating conditions", at.Len()-1),
+				"a prefix byte is recorded at an index that the dominating conditions do not keep below the length of the prefix array: a long run of prefix bytes makes Decode panic with 'index out of range'")
+		})
+	}
+	return n
+}
+
+// c16Interpreter: C16.R7 — goom's x86 decoder is a copy of golang.org/x/arch/x86/x86asm; the toolchain's own (newer)
+// copy under $GOROOT/src/cmd/vendor is an independent reference for the *interpreter* (decode.go: prefix scan, ModR/M and
+// SIB handling, immediates, the bytecode loop). The bytecode tables differ between the two versions (the reference knows
+// more instructions) and are not compared; every function of goom's decode.go must equal the reference's function of the
+// same name as a normalised syntax tree (comments and positions dropped, literals by value, x++ ≡ x += 1, the one renamed
+// constant). A slip in the interpreter — a regrouped condition, a bound off by one — makes it differ.
+func c16Interpreter(c *Ctx) {
+	p, r := c.K1(), c.R
+	goroot := ""
+	if out, err := exec.Command("go", "env", "GOROOT").Output(); err == nil {
+		goroot = strings.TrimSpace(string(out))
+	}
+	refDir := filepath.Join(goroot, "src", "cmd", "vendor", "golang.org", "x", "arch", "x86", "x86asm")
+	if _, err := os.Stat(filepath.Join(refDir, "decode.go")); err != nil {
+		r.Und("C16.R7", "reference interpreter", "", "reference unavailable: "+refDir+" not found")
+		return
+	}
+	saved := canonRename
+	canonRename = map[string]string{"xReadId": "xReadID"}
+	defer func() { canonRename = saved }()
+	only := func(name string) map[string]bool {
+		skip := map[string]bool{}
+		return skip
+	}
+	_ = only
+	keepDecode := func(dir string) map[string]bool {
+		skip := map[string]bool{}
+		ents, _ := os.ReadDir(dir)
+		for _, e := range ents {
+			if e.Name() != "decode.go" {
+				skip[e.Name()] = true
+			}
+		}
+		return skip
+	}
+	oursDir := filepath.Join(p.Repo, x86Pkg)
+	ours, err1 := parseDecls(oursDir, keepDecode(oursDir))
+	ref, err2 := parseDecls(refDir, keepDecode(refDir))
+	if err1 != nil || err2 != nil {
+		r.Und("C16.R7", "parse", "", fmt.Sprintf("cannot parse: %v %v", err1, err2))
+		return
+	}
+	var names []string
+	for n := range ours.funcs {
+		names = append(names, n)
+	}
+	sort.Strings(names)
+	for _, n := range names {
+		of := ours.funcs[n]
+		rf, ok := ref.funcs[n]
+		if !ok {
+			continue // a helper the reference does not have: judged through the functions that call it
+		}
+		same := ours.canon(of.Type) == ref.canon(rf.Type) && ours.canon(of.Body) == ref.canon(rf.Body)
+		if same {
+			r.OK("C16.R7", "func "+n, x86Pkg+"/decode.go", "equal to the toolchain's copy as a normalised syntax tree")
+			continue
+		}
+		// the function was edited: a restructuring cannot be judged against the reference and is left undecided in favour
+		// of the code (the other rules still apply to it); what is reported is a near miss — a condition or simple statement
+		// that exists in the reference with one token replaced or with the same tokens grouped differently
+		oa, ra := ours.atomsOf(of), ref.atomsOf(rf)
+		bad := ""
+		var okeys []string
+		for k := range oa {
+			if _, both := ra[k]; !both {
+				okeys = append(okeys, k)
+			}
+		}
+		sort.Strings(okeys)
+		for _, k := range okeys {
+			for k2, rt := range ra {
+				if _, both := oa[k2]; both {
+					continue
+				}
+				if nearMiss(oa[k], rt) {
+					bad = "`" + strings.Join(oa[k], " ") + "` where the reference has `" + strings.Join(rt, " ") + "`"
+				}
+			}
+		}
+		r.Check(bad == "", "C16.R7", "func "+n, x86Pkg+"/decode.go", "restructured relative to the toolchain's copy; no condition or statement is a near miss of its counterpart",
+			"function "+n+" of the decoding interpreter has "+bad+": instruction boundaries, prefixes or PC-relative fields are decoded differently from the reference for some byte sequences")
+	}
+	if len(names) == 0 {
+		r.Und("C16.R7", "interpreter functions", "", "no function found in decode.go")
+	}
+}
+
+// astTokens flattens an expression or simple statement into its identifiers, literal values and operators in source order
+// (parentheses dropped, x++ as x += 1, identifiers through the rename map, named constants by value).
+func (ds *declSet) astTokens(n ast.Node) []string {
+	var out []string
+	var walk func(n ast.Node)
+	walk = func(n ast.Node) {
+		switch x := n.(type) {
+		case nil:
+		case *ast.Ident:
+			name := x.Name
+			if r, ok := canonRename[name]; ok {
+				name = r
+			}
+			if lit, ok := ds.consts[name]; ok && (x.Obj == nil || x.Obj.Kind == ast.Con) {
+				out = append(out, lit.Value)
+				return
+			}
+			out = append(out, name)
+		case *ast.BasicLit:
+			v := x.Value
+			if x.Kind == token.INT {
+				if iv, err := strconv.ParseInt(strings.ReplaceAll(v, "_", ""), 0, 64); err == nil {
+					v = strconv.FormatInt(iv, 10)
+				}
+			}
+			out = append(out, v)
+		case *ast.ParenExpr:
+			walk(x.X)
+		case *ast.BinaryExpr:
+			walk(x.X)
+			out = append(out, x.Op.String())
+			walk(x.Y)
+		case *ast.UnaryExpr:
+			out = append(out, x.Op.String())
+			walk(x.X)
+		case *ast.StarExpr:
+			out = append(out, "*")
+			walk(x.X)
+		case *ast.SelectorExpr:
+			walk(x.X)
+			out = append(out, ".")
+			walk(x.Sel)
+		case *ast.IndexExpr:
+			walk(x.X)
+			out = append(out, "[")
+			walk(x.Index)
+			out = append(out, "]")
+		case *ast.SliceExpr:
+			walk(x.X)
+			out = append(out, "[")
+			if x.Low != nil {
+				walk(x.Low)
+			}
+			out = append(out, ":")
+			if x.High != nil {
+				walk(x.High)
+			}
+			if x.Max != nil {
+				out = append(out, ":")
+				walk(x.Max)
+			}
+			out = append(out, "]")
+		case *ast.CallExpr:
+			walk(x.Fun)
+			out = append(out, "(")
+			for i, a := range x.Args {
+				if i > 0 {
+					out = append(out, ",")
+				}
+				walk(a)
+			}
+			out = append(out, ")")
+		case *ast.CompositeLit:
+			out = append(out, "{")
+			for _, e := range x.Elts {
+				walk(e)
+				out = append(out, ",")
+			}
+			out = append(out, "}")
+		case *ast.KeyValueExpr:
+			walk(x.Key)
+			out = append(out, ":")
+			walk(x.Value)
+		case *ast.AssignStmt:
+			for i, l := range x.Lhs {
+				if i > 0 {
+					out = append(out, ",")
+				}
+				walk(l)
+			}
+			out = append(out, x.Tok.String())
+			for i, rh := range x.Rhs {
+				if i > 0 {
+					out = append(out, ",")
+				}
+				walk(rh)
+			}
+		case *ast.IncDecStmt:
+			walk(x.X)
+			if x.Tok == token.INC {
+				out = append(out, "+=", "1")
+			} else {
+				out = append(out, "-=", "1")
+			}
+		case *ast.ReturnStmt:
+			out = append(out, "return")
+			for i, rv := range x.Results {
+				if i > 0 {
+					out = append(out, ",")
+				}
+				walk(rv)
+			}
+		case *ast.ExprStmt:
+			walk(x.X)
+		case *ast.BranchStmt:
+			out = append(out, x.Tok.String())
+			if x.Label != nil {
+				out = append(out, x.Label.Name)
+			}
+		default:
+			out = append(out, fmt.Sprintf("%T", n))
+		}
+	}
+	walk(n)
+	return out
+}
+
+// atomsOf: the decision atoms of a function — every condition, case expression and simple statement, as token lists.
+func (ds *declSet) atomsOf(fd *ast.FuncDecl) map[string][]string {
+	out := map[string][]string{}
+	add := func(n ast.Node) {
+		if n == nil {
+			return
+		}
+		toks := ds.astTokens(n)
+		out[ds.canon(n)] = toks
+	}
+	ast.Inspect(fd.Body, func(n ast.Node) bool {
+		switch x := n.(type) {
+		case *ast.IfStmt:
+			add(x.Cond)
+		case *ast.ForStmt:
+			if x.Cond != nil {
+				add(x.Cond)
+			}
+		case *ast.SwitchStmt:
+			if x.Tag != nil {
+				add(x.Tag)
+			}
+		case *ast.CaseClause:
+			for _, e := range x.List {
+				add(e)
+			}
+		case *ast.AssignStmt, *ast.IncDecStmt, *ast.ReturnStmt, *ast.ExprStmt:
+			add(x)
+		}
+		return true
+	})
+	return out
+}
+
+// nearMiss: two atoms that are not the same tree but read almost the same — the same tokens regrouped, or the same
+// length with one token replaced.
+func nearMiss(a, b []string) bool {
+	if len(a) != len(b) || len(a) < 3 {
+		return false
+	}
+	class := func(t string) int {
+		switch {
+		case t == "":
+			return 0
+		case t[0] >= '0' && t[0] <= '9', t[0] == '"', t[0] == '\'', t[0] == '`':
+			return 1 // literal
+		case (t[0] >= 'a' && t[0] <= 'z') || (t[0] >= 'A' && t[0] <= 'Z') || t[0] == '_':
+			return 2 // identifier
+		}
+		return 3 // operator / punctuation
+	}
+	diff := 0
+	for i := range a {
+		if a[i] != b[i] {
+			diff++
+			if class(a[i]) != class(b[i]) {
+				return false // a literal generalised into a variable (or the reverse) is a refactoring, not a slip
+			}
+		}
+	}
+	return diff <= 1
 }
